@@ -50,8 +50,14 @@ GROUPS = {
 
 @st.composite
 def _case(draw):
-    group = draw(st.sampled_from(list(GROUPS)))
-    if group == "plain":
+    group = draw(st.sampled_from(list(GROUPS) + ["chain", "chain"]))
+    if group == "chain":
+        # deep chains (caterpillars of 6..8 leaves over <=3 species, independent leaf contents): the unordered solvers'
+        # inheritance through several consecutive ancestors; validity predicates only, so cheap
+        case = draw(gen.deep_chain_case(min_obj=5, max_obj=8, max_sp=3, max_fam=5, costs="free"))
+        group = "unordered"
+        case["_chain"] = True
+    elif group == "plain":
         case = draw(gen.rec_case(max_obj=10, max_sp=8, costs="free", labelled=False))
     elif group == "ordered":
         case = draw(gen.rec_case(max_obj=8, max_sp=6, costs="free", labelled=True, max_fam=4, prescribed_root=True))
@@ -86,6 +92,8 @@ def check(case):
     orig_s = parse_newick(case["species_tree"])
     polytomous = not (orig_o.is_binary() and orig_s.is_binary())
     labels = [f"group={group}"]
+    if case.get("_chain"):
+        labels.append("deep_chain")
     if polytomous:
         labels.append("polytomy")
     c = case["costs"]
